@@ -49,3 +49,10 @@ type ghostWriter struct {
 	CloseCnt  int
 	CloseAt   int
 }
+
+// ghostOutput is what gomidi was asked to serialise to an io.Writer: how many track
+// chunks, and how many events each was handed (defined by the assumed contract of smf.SMF.WriteTo).
+type ghostOutput struct {
+	Tracks int
+	Events [ghostInf]int
+}
